@@ -20,18 +20,16 @@ var cornersBF = []uint32{0, 1, 4, 5, 8, 16, 24, 31, 32, 33, 0x00010000, 0x000800
 	0x00200010, 0x00400000, 0x007f0000, 0x0020001f, 0x00010000 | 31, 0x00050003, 0xffffffff, 0x00180010, 0x00080018}
 
 var cornersF32 = []uint32{
-	0x00000000, 0x80000000, // +-0
-	0x3f800000, 0xbf800000, // +-1
-	0x40000000, 0xc0000000, 0x3f000000, 0x3fc00000, 0x40200000, 0xbfc00000, // 2 -2 .5 1.5 2.5 -1.5
-	0x7f800000, 0xff800000, // +-inf
-	0x7fc00000, 0xffc00000, 0x7fc00001, // quiet NaNs
-	0x7f7fffff, 0xff7fffff, // +-max
-	0x00800000, 0x80800000, // +-min normal
-	0x00000001, 0x80000001, 0x007fffff, 0x00400000, // denormals
-	0x4f000000, 0xcf000000, 0x4f800000, 0x4effffff, 0xcf000001, // 2^31, -2^31, 2^32, just below 2^31
+	0x00000000, 0x80000000, 0x3f800000, 0xbf800000, // +-0 +-1
+	0x7f800000, 0xff800000, 0x7fc00000, 0x7f7fffff, // +-inf qNaN max
+	0x00800000, 0x40000000, 0x3fc00000, 0xc0200000, // min normal 2 1.5 -2.5
+	0x00000001, 0xff7fffff, 0xffc00000, 0x7fc00001, // denormal -max quiet NaNs
+	0xc0000000, 0x3f000000, 0x40200000, 0xbfc00000, // -2 .5 2.5 -1.5
+	0x80800000, 0x80000001, 0x007fffff, 0x00400000, // -min normal, denormals
+	0x4f000000, 0xcf000000, 0x4f800000, 0x4effffff, 0xcf000001, 0x4f000001, // 2^31, -2^31, 2^32, around 2^31
 	0x4b000000, 0x4b000001, 0x4b7fffff, 0x4b800000, 0x3effffff, 0x3f000001, 0x3f7fffff, // 2^23 region, around .5 and 1
 	0x33800000, 0x34000000, 0x3f800001, 0x3f7ffffe, 0x477fe000, 0x477ff000, 0x38800000, 0x387fc000, 0x33000000, // ulp and f16 boundaries
-	0x42c80000, 0xc2c80000, 0x461c4000, 0x3dcccccd,
+	0x42c80000, 0xc2c80000, 0x461c4000, 0x3dcccccd, 0x44624c2a,
 }
 
 var sNaN32 = []uint32{0x7f800001, 0xff800001, 0x7fa00000}
@@ -41,14 +39,20 @@ var cornersI64 = []uint64{0, 1, 2, 0xffffffffffffffff, 0xfffffffffffffffe, 0x7ff
 	0x5555555555555555, 0xaaaaaaaaaaaaaaaa, 0x0123456789abcdef, 0x00000001ffffffff, 0xffffffff80000000, 0x8000000080000000}
 
 var cornersF64 = []uint64{
-	0, 0x8000000000000000, 0x3ff0000000000000, 0xbff0000000000000, 0x4000000000000000, 0x3fe0000000000000,
-	0x7ff0000000000000, 0xfff0000000000000, 0x7ff8000000000000, 0xfff8000000000000,
-	0x7fefffffffffffff, 0xffefffffffffffff, 0x0010000000000000, 0x8010000000000000,
-	0x0000000000000001, 0x800fffffffffffff, 0x3ff0000000000001, 0x3fefffffffffffff,
+	0, 0x8000000000000000, 0x3ff0000000000000, 0xbff0000000000000,
+	0x7ff0000000000000, 0xfff0000000000000, 0x7ff8000000000000, 0x7fefffffffffffff,
+	0x0010000000000000, 0x4000000000000000, 0x3ff8000000000000, 0xc004000000000000,
+	0x0000000000000001, 0xffefffffffffffff, 0xfff8000000000000, 0x3fe0000000000000,
+	0x8010000000000000, 0x800fffffffffffff, 0x3ff0000000000001, 0x3fefffffffffffff,
 	0x47efffffe0000000, 0x47effffff0000000, 0x47f0000000000000, 0x36a0000000000000, 0x3690000000000000, 0x380fffffffffffff,
 	0x3810000000000000, 0x41dfffffffc00000, 0x41e0000000000000, 0xc1e0000000000000, 0x41efffffffe00000, 0x4340000000000000,
-	0x3ff8000000000000, 0x4004000000000000, 0x3ca0000000000000, 0x4059000000000000,
+	0x4004000000000000, 0x3ca0000000000000, 0x4059000000000000,
 }
+
+// operand triples on which a*b+c with two roundings differs from the fused result
+var fmaTies32 = [][3]uint32{{0x4f000001, 0x3fc00000, 0x44624c2a}, {0xcf000001, 0x3fc00000, 0xc4624c2a}}
+var fmaTies64 = [][3]uint64{{0x3ead1f6d14e8f1e4, 0x4061b135584e27d3, 0xbf2ff9d69bbd29d1},
+	{0x4153602347dad09f, 0xc0924f19212a9add, 0x408d8ca761383b9e}}
 
 func pick32(r *rand.Rand, vt byte, k int) uint32 {
 	var pool []uint32
@@ -154,6 +158,7 @@ type gen struct {
 	nextID int
 	cases  []*Case
 	mode   string // c03 | c06
+	fk     [2]int // forced source kinds of the next scalar case (-1 = by index / random)
 }
 
 func (g *gen) newCase(arch, st string, d opDef) *Case {
@@ -225,6 +230,10 @@ func (g *gen) scalarSrc(c *Case, key string, w int, vt byte, val uint64, slot in
 		n = 1
 	}
 	switch kind {
+	case 8:
+		code := 193 + g.r.Intn(16)
+		c.Ops[key] = OpLog{C: code, N: n}
+		return code
 	case 1:
 		code := 128 + g.r.Intn(65)
 		if g.r.Intn(3) == 0 {
@@ -321,7 +330,15 @@ func (g *gen) genScalar(arch, st string, d opDef, ka, kb int) *Case {
 		a := val(g.r, d.aw, vtAt(d, 0), ka)
 		b := val(g.r, d.bw, vtAt(d, 1), kb)
 		kindA, kindB := -1, -1
-		if ka >= 0 {
+		if g.fk[0] >= 0 || g.fk[1] >= 0 {
+			kindA, kindB = 0, 0
+			if g.fk[0] >= 0 {
+				kindA = g.fk[0]
+			}
+			if g.fk[1] >= 0 {
+				kindB = g.fk[1]
+			}
+		} else if ka >= 0 {
 			kindA, kindB = 0, 0
 			switch g.r.Intn(8) {
 			case 0:
@@ -358,6 +375,9 @@ func (g *gen) genScalar(arch, st string, d opDef, ka, kb int) *Case {
 			if ka >= 0 {
 				kindA = 0
 			}
+			if g.fk[0] >= 0 {
+				kindA = g.fk[0]
+			}
 			s0 = g.scalarSrc(c, "s0", d.aw, vtAt(d, 0), a, 8, true, kindA)
 		}
 		special := !(d.op >= 32 && d.op <= 39)
@@ -376,6 +396,15 @@ func (g *gen) genScalar(arch, st string, d opDef, ka, kb int) *Case {
 		kindA, kindB := -1, -1
 		if ka >= 0 {
 			kindA, kindB = 0, 0
+		}
+		if g.fk[0] >= 0 || g.fk[1] >= 0 {
+			kindA, kindB = 0, 0
+			if g.fk[0] >= 0 {
+				kindA = g.fk[0]
+			}
+			if g.fk[1] >= 0 {
+				kindB = g.fk[1]
+			}
 		}
 		s0 := g.scalarSrc(c, "s0", 32, 'i', a, 8, true, kindA)
 		s1 := g.scalarSrc(c, "s1", 32, 'i', b, 10, litOf(c) == nil, kindB)
@@ -468,29 +497,94 @@ func (g *gen) setV(c *Case, reg int, w int, vals []uint64) {
 	}
 }
 
-// lane values: the first records enumerate the cross product of the corner
-// pools over the lanes (record index rk), later ones are random.
-func (g *gen) laneValues(w int, vt byte, rk int, stride int, div int) []uint64 {
+// plan of one vector record: rk >= 0 enumerates corner combinations over the lanes (seed independent),
+// rk < 0 draws seeded random values; kind[i] forces how source i is supplied
+// (-1 auto, 0 VGPR, 1 inline integer >= 0, 8 inline integer < 0, 2 literal, 6 inline float, 7 SGPR).
+type plan struct {
+	rk    int
+	kind  [3]int
+	nops  int
+	carry bool
+}
+
+func ipow(b, e int) int {
+	r := 1
+	for ; e > 0; e-- {
+		r *= b
+	}
+	return r
+}
+
+func primSize(n int) int { return []int{1, 64, 12, 8}[n] }
+
+// crossRecords: how many records the corner cross product of n operands needs
+func crossRecords(n int, carry bool) int {
+	t := ipow(primSize(n), n)
+	if n == 1 {
+		t = 64
+	}
+	if carry {
+		t *= 2
+	}
+	return (t + nLane - 1) / nLane
+}
+
+// cornerIdx: pool index of operand i (of n) at flat lane position k
+func cornerIdx(i, n, k, plen int, carry bool) int {
+	if n == 1 {
+		return k % plen
+	}
+	prim := primSize(n)
+	if prim > plen {
+		prim = plen
+	}
+	total := ipow(prim, n)
+	if carry {
+		total *= 2
+	}
+	if k < total {
+		return (k / ipow(prim, i)) % prim
+	}
+	j := k - total
+	return (j*(2*i+1) + 5*i + j/plen) % plen
+}
+
+func (g *gen) laneValues(w int, vt byte, pl plan, i int) []uint64 {
 	vals := make([]uint64, nLane)
 	for l := 0; l < nLane; l++ {
 		k := -1
-		if rk >= 0 {
-			k = ((rk*nLane + l) / div)
-			if stride > 0 {
-				k = k % stride
-			}
+		if pl.rk >= 0 {
+			k = cornerIdx(i, pl.nops, pl.rk*nLane+l, poolLen(vt), pl.carry)
 		}
 		vals[l] = val(g.r, w, vt, k)
 	}
 	return vals
 }
 
-// vector source: VGPR (per-lane values) or a uniform scalar location
-func (g *gen) vecSrc(c *Case, key string, w int, vt byte, rk int, div int, vslot, sslot int, allowLit, allowScalar bool, forceV bool) int {
-	useV := forceV || !allowScalar || g.r.Intn(4) != 0 || rk >= 0 && rk < 2
+func (g *gen) randLanes(w int, vt byte) []uint64 {
+	return g.laneValues(w, vt, plan{rk: -1}, 0)
+}
+
+// vector source i: VGPR (per-lane values) or a uniform scalar location
+func (g *gen) vecSrc(c *Case, key string, w int, vt byte, pl plan, i int, vslot, sslot int, allowLit, allowScalar bool) int {
 	if vt == 'm' {
 		// lane mask operand: SGPR pair or VCC
 		v := pick64(g.r, 'm', -1)
+		if pl.rk >= 0 && pl.carry {
+			// carry-in enumeration: the digit above the operand digits
+			v = 0
+			prim := primSize(pl.nops)
+			for l := 0; l < nLane; l++ {
+				k := pl.rk*nLane + l
+				if k < 2*ipow(prim, pl.nops) {
+					if (k/ipow(prim, pl.nops))%2 == 1 {
+						v |= 1 << uint(l)
+					}
+				} else if g.r.Intn(2) == 0 {
+					v |= 1 << uint(l)
+				}
+			}
+		}
 		if g.r.Intn(3) == 0 {
 			c.VCC = v
 			c.Ops[key] = OpLog{C: 106, N: 2}
@@ -502,80 +596,151 @@ func (g *gen) vecSrc(c *Case, key string, w int, vt byte, rk int, div int, vslot
 		c.Ops[key] = OpLog{C: sslot, N: 2}
 		return sslot
 	}
-	if useV {
-		g.setV(c, vslot, w, g.laneValues(w, vt, rk, poolLen(vt), div))
+	kind := pl.kind[i]
+	if kind < 0 {
+		kind = 0
+		if allowScalar && pl.rk < 0 && g.r.Intn(4) == 0 {
+			x := g.r.Intn(10)
+			switch {
+			case x < 4:
+				kind = 7
+			case x < 7:
+				kind = 1
+				if vt == 'f' || vt == 'd' || vt == 'p' {
+					kind = 6
+				}
+			case x < 9 && allowLit && w == 32:
+				kind = 2
+			default:
+				kind = 7
+			}
+		}
+	}
+	if kind == 2 && !(allowLit && w == 32) {
+		kind = 7
+	}
+	if kind == 0 || !allowScalar {
+		g.setV(c, vslot, w, g.laneValues(w, vt, pl, i))
 		c.Ops[key] = OpLog{C: 256 + vslot, N: w / 32}
 		return 256 + vslot
 	}
-	kind := -1
-	x := g.r.Intn(10)
-	switch {
-	case x < 4:
-		kind = 0
-	case x < 7:
-		kind = 1
-		if vt == 'f' || vt == 'd' || vt == 'p' {
-			kind = 6
-			if g.r.Intn(3) == 0 {
-				kind = 1
-			}
-		}
-	case x < 9 && allowLit && w == 32:
-		kind = 2
-	default:
-		kind = 0
+	n := w / 32
+	switch kind {
+	case 8:
+		code := 193 + g.r.Intn(16)
+		c.Ops[key] = OpLog{C: code, N: n}
+		return code
+	case 1:
+		code := 128 + g.r.Intn(65)
+		c.Ops[key] = OpLog{C: code, N: n}
+		return code
+	case 7:
+		return g.scalarSrc(c, key, w, vt, val(g.r, w, vt, -1), sslot, false, 0)
 	}
 	return g.scalarSrc(c, key, w, vt, val(g.r, w, vt, -1), sslot, allowLit, kind)
 }
 
 func has(flag, f string) bool { return strings.Contains(flag, f) }
 
-func (g *gen) genVector(arch, st string, d opDef, rk int) *Case {
+// number of enumerated (value-carrying, non-mask) source operands
+func nEnum(d opDef) int {
+	n := 0
+	for i, w := range []int{d.aw, d.bw, d.cw} {
+		if w > 0 && vtAt(d, i) != 'm' {
+			n++
+		}
+	}
+	if has(d.flag, "litk") {
+		n = 2
+	}
+	return n
+}
+
+func (g *gen) genVector(arch, st string, d opDef, pl plan) *Case {
 	c := g.newCase(arch, st, d)
+	rk := pl.rk
+	pl.nops = nEnum(d)
+	pl.carry = has(d.flag, "vccin") || (d.tmpl == "vop3b" && d.cw == 64)
 	c.EXEC = g.execMask(g.r.Intn(6))
 	if rk >= 0 {
 		c.EXEC = ^uint64(0) // corner cross-product records: every lane carries a combination
 	}
-	na := poolLen(vtAt(d, 0))
 	isF := strings.ContainsAny(d.vt, "fdp")
+	dstAlias := func(src, w int) bool { return rk < 0 && g.r.Intn(8) == 0 && src >= 256 && w == d.dw }
 	switch d.tmpl {
 	case "vop1", "vop1s":
-		s0 := g.vecSrc(c, "s0", d.aw, vtAt(d, 0), rk, 1, 2, 8, true, d.tmpl == "vop1", d.tmpl == "vop1s")
+		if d.tmpl == "vop1s" {
+			pl.kind[0] = 0
+		}
+		s0 := g.vecSrc(c, "s0", d.aw, vtAt(d, 0), pl, 0, 2, 8, true, true)
 		if d.tmpl == "vop1s" {
 			dst := 20
 			c.Ops["d"] = OpLog{C: dst, N: 1}
 			c.Enc = encVOP1(d.op, dst, s0, litOf(c))
 		} else {
 			dst := 10
-			if g.r.Intn(8) == 0 && s0 >= 256 && d.aw >= d.dw {
+			if dstAlias(s0, d.aw) {
 				dst = s0 - 256
 			}
 			c.Ops["d"] = OpLog{C: 256 + dst, N: d.dw / 32}
 			c.Enc = encVOP1(d.op, dst, s0, litOf(c))
 		}
 	case "vop2":
-		s0 := g.vecSrc(c, "s0", 32, vtAt(d, 0), rk, 1, 2, 8, !has(d.flag, "litk"), true, false)
-		g.setV(c, 4, 32, g.laneValues(32, vtAt(d, 1), rk, poolLen(vtAt(d, 1)), na))
+		s0 := g.vecSrc(c, "s0", 32, vtAt(d, 0), pl, 0, 2, 8, !has(d.flag, "litk"), true)
+		g.setV(c, 4, 32, g.laneValues(32, vtAt(d, 1), pl, 1))
 		c.Ops["s1"] = OpLog{C: 256 + 4, N: 1}
 		dst := 10
-		if g.r.Intn(8) == 0 {
+		if rk < 0 && g.r.Intn(8) == 0 {
 			dst = 4
 		}
 		c.Ops["d"] = OpLog{C: 256 + dst, N: 1}
 		if has(d.flag, "mac") {
-			g.setV(c, dst, 32, g.laneValues(32, 'f', -1, 0, 1))
+			g.setV(c, dst, 32, g.randLanes(32, 'f'))
+		}
+		if has(d.flag, "vccin") && rk >= 0 {
+			// carry-in digit of the enumeration
+			prim := primSize(pl.nops)
+			c.VCC = 0
+			for l := 0; l < nLane; l++ {
+				k := rk*nLane + l
+				if (k < 2*ipow(prim, pl.nops) && (k/ipow(prim, pl.nops))%2 == 1) || (k >= 2*ipow(prim, pl.nops) && g.r.Intn(2) == 0) {
+					c.VCC |= 1 << uint(l)
+				}
+			}
 		}
 		var lit *uint32 = litOf(c)
 		if has(d.flag, "litk") {
 			k := pick32(g.r, 'f', -1)
+			if rk == 0 {
+				k = fmaTies32[0][2]
+				if d.op == 23 {
+					k = fmaTies32[0][1]
+				}
+			}
 			lit = &k
 			c.Ops["s2"] = OpLog{C: 255, N: 1, Lit: &k}
 		}
+		if rk == 0 && isF && (has(d.flag, "mac") || has(d.flag, "litk")) && s0 >= 256 {
+			// operands whose fused and unfused multiply-add differ
+			for j, t := range fmaTies32 {
+				l := 62 + j
+				c.V[2][l] = t[0]
+				switch {
+				case has(d.flag, "mac"):
+					c.V[4][l] = t[1]
+					c.V[dst][l] = t[2]
+				case d.op == 23: // D = S0 * K + S1
+					c.V[4][l] = t[2]
+				default: // D = S0 * S1 + K
+					c.V[4][l] = t[1]
+				}
+			}
+		}
 		c.Enc = encVOP2(d.op, dst, s0, 4, lit)
 	case "vopc":
-		s0 := g.vecSrc(c, "s0", d.aw, vtAt(d, 0), rk, 1, 2, 8, d.aw == 32, true, false)
-		bv := g.laneValues(d.bw, vtAt(d, 1), rk, poolLen(vtAt(d, 1)), na)
-		if s0 >= 256 && rk != 0 {
+		s0 := g.vecSrc(c, "s0", d.aw, vtAt(d, 0), pl, 0, 2, 8, d.aw == 32, true)
+		bv := g.laneValues(d.bw, vtAt(d, 1), pl, 1)
+		if s0 >= 256 && rk < 0 {
 			// make equality frequent
 			for l := 0; l < nLane; l += 3 {
 				bv[l] = uint64(c.V[2][l])
@@ -591,21 +756,27 @@ func (g *gen) genVector(arch, st string, d opDef, rk int) *Case {
 	case "vop3", "vop3c", "vop3b":
 		// at most one scalar register source (constant-bus rule of the ISA)
 		scalarAt := -1
-		if rk != 0 && g.r.Intn(3) == 0 {
+		if rk < 0 && g.r.Intn(3) == 0 {
 			scalarAt = g.r.Intn(3)
 		}
 		srcs := []int{0, 0, 0}
 		ws := []int{d.aw, d.bw, d.cw}
-		div := 1
+		ei := 0
 		for i, key := range []string{"s0", "s1", "s2"} {
 			if ws[i] == 0 {
 				continue
 			}
 			vt := vtAt(d, i)
-			srcs[i] = g.vecSrc(c, key, ws[i], vt, rk, div, 2+2*i, 8+2*i, false, scalarAt == i, scalarAt != i)
-			div *= poolLen(vt)
+			p := pl
+			if p.kind[i] < 0 && scalarAt != i {
+				p.kind[i] = 0
+			}
+			srcs[i] = g.vecSrc(c, key, ws[i], vt, p, ei, 2+2*i, 8+2*i, false, true)
+			if vt != 'm' {
+				ei++
+			}
 		}
-		if rk != 0 && d.tmpl == "vop3c" && srcs[0] >= 256 && srcs[1] >= 256 {
+		if rk < 0 && d.tmpl == "vop3c" && srcs[0] >= 256 && srcs[1] >= 256 {
 			for l := 0; l < nLane; l += 3 {
 				c.V[4][l] = c.V[2][l]
 				if d.aw == 64 {
@@ -613,8 +784,22 @@ func (g *gen) genVector(arch, st string, d opDef, rk int) *Case {
 				}
 			}
 		}
+		if rk == 0 && d.cw > 0 && srcs[0] >= 256 && srcs[1] >= 256 && srcs[2] >= 256 {
+			if d.vt == "fff" {
+				for j, t := range fmaTies32 {
+					c.V[2][62+j], c.V[4][62+j], c.V[6][62+j] = t[0], t[1], t[2]
+				}
+			}
+			if d.vt == "ddd" {
+				for j, t := range fmaTies64 {
+					for i := 0; i < 3; i++ {
+						c.V[2+2*i][62+j], c.V[3+2*i][62+j] = uint32(t[i]), uint32(t[i]>>32)
+					}
+				}
+			}
+		}
 		abs, neg := 0, 0
-		if isF && rk != 0 && d.cls != "lane" && d.op < 900 {
+		if isF && rk < 0 && d.cls != "lane" && d.op < 900 {
 			if g.r.Intn(3) == 0 {
 				abs = g.r.Intn(8)
 			}
@@ -638,7 +823,7 @@ func (g *gen) genVector(arch, st string, d opDef, rk int) *Case {
 			c.Enc = encVOP3a(d.op, dst, abs, 0, srcs[0], srcs[1], srcs[2], 0, neg)
 		case "vop3":
 			dst := 10
-			if g.r.Intn(8) == 0 && srcs[0] >= 256 && d.aw == d.dw {
+			if dstAlias(srcs[0], d.aw) {
 				dst = srcs[0] - 256
 			}
 			c.Ops["d"] = OpLog{C: 256 + dst, N: d.dw / 32}
@@ -740,13 +925,13 @@ func (g *gen) genDS(arch, st string, d opDef, rk int) *Case {
 	if isWrite {
 		n := (d.bw + 31) / 32
 		for i := 0; i < n; i++ {
-			g.setV(c, 16+i, 32, g.laneValues(32, 'i', -1, 0, 1))
+			g.setV(c, 16+i, 32, g.randLanes(32, 'i'))
 		}
 		c.Ops["data"] = OpLog{C: 256 + 16, N: n}
 		data0 = 16
 		if two {
 			for i := 0; i < n; i++ {
-				g.setV(c, 20+i, 32, g.laneValues(32, 'i', -1, 0, 1))
+				g.setV(c, 20+i, 32, g.randLanes(32, 'i'))
 			}
 			c.Ops["data1"] = OpLog{C: 256 + 20, N: n}
 			data1 = 20
@@ -855,7 +1040,7 @@ func (g *gen) genFlat(arch, st string, d opDef, rk int) *Case {
 	if isStore {
 		n := d.bw / 32
 		for i := 0; i < n; i++ {
-			g.setV(c, 16+i, 32, g.laneValues(32, 'i', -1, 0, 1))
+			g.setV(c, 16+i, 32, g.randLanes(32, 'i'))
 		}
 		c.Ops["data"] = OpLog{C: 256 + 16, N: n}
 		data = 16
@@ -887,6 +1072,8 @@ func isVector(d opDef) bool {
 	return false
 }
 
+var autoKinds = [3]int{-1, -1, -1}
+
 func (g *gen) one(arch, st string, d opDef, rk, ka, kb int) *Case {
 	switch {
 	case d.f == "DS":
@@ -894,7 +1081,7 @@ func (g *gen) one(arch, st string, d opDef, rk, ka, kb int) *Case {
 	case d.f == "FLAT":
 		return g.genFlat(arch, st, d, rk)
 	case isVector(d):
-		return g.genVector(arch, st, d, rk)
+		return g.genVector(arch, st, d, plan{rk: rk, kind: autoKinds})
 	}
 	return g.genScalar(arch, st, d, ka, kb)
 }
@@ -910,31 +1097,58 @@ func (g *gen) genC03(scale int, only map[string]bool) {
 				continue
 			}
 			if isVector(d) {
-				nb := 1
-				if d.bw > 0 {
-					nb = poolLen(vtAt(d, 1))
-				}
-				cross := (poolLen(vtAt(d, 0))*nb + nLane - 1) / nLane
-				if cross > 6*scale {
-					cross = 6 * scale
-				}
 				if d.f == "DS" || d.f == "FLAT" {
-					cross = 0
-				}
-				n := cross + 3*scale
-				for k := 0; k < n; k++ {
-					rk := k
-					if k >= cross {
-						rk = -1 - k
+					for k := 0; k < 4*scale; k++ {
+						st := "emu"
+						if k%4 == 3 {
+							st = "timing"
+						}
+						g.cases = append(g.cases, g.one(arch, st, d, -1, -1, -1))
 					}
+					continue
+				}
+				carry := has(d.flag, "vccin") || (d.tmpl == "vop3b" && d.cw == 64)
+				cross := crossRecords(nEnum(d), carry) + scale
+				cnt := 0
+				emit := func(pl plan) {
 					st := "emu"
-					if k%4 == 3 {
+					if cnt%4 == 3 {
 						st = "timing"
 					}
-					if rk < 0 {
-						rk = -1
+					cnt++
+					g.cases = append(g.cases, g.genVector(arch, st, d, pl))
+				}
+				for rk := 0; rk < cross; rk++ {
+					emit(plan{rk: rk, kind: autoKinds})
+				}
+				// how the sources are supplied: inline constants (negative integers, floats), SGPR, literal
+				ws := []int{d.aw, d.bw, d.cw}
+				for i := 0; i < 3; i++ {
+					if ws[i] == 0 || vtAt(d, i) == 'm' {
+						continue
 					}
-					g.cases = append(g.cases, g.one(arch, st, d, rk, -1, -1))
+					if i > 0 && (d.f == "VOP1" || d.f == "VOP2" || d.f == "VOPC") {
+						continue // VSRC1 is always a VGPR
+					}
+					if i == 2 && has(d.flag, "litk") {
+						continue
+					}
+					vt := vtAt(d, i)
+					kinds := []int{8, 7}
+					if vt == 'f' || vt == 'd' || vt == 'p' {
+						kinds = []int{6, 7}
+					}
+					if ws[i] == 32 && (d.f == "VOP1" || d.f == "VOP2" || d.f == "VOPC") && !has(d.flag, "litk") {
+						kinds = append(kinds, 2)
+					}
+					for _, kd := range kinds {
+						pl := plan{rk: 0, kind: autoKinds}
+						pl.kind[i] = kd
+						emit(pl)
+					}
+				}
+				for k := 0; k < 3*scale; k++ {
+					emit(plan{rk: -1, kind: autoKinds})
 				}
 			} else {
 				pa, pb := poolLen(vtAt(d, 0)), poolLen(vtAt(d, 1))
@@ -967,12 +1181,34 @@ func (g *gen) genC03(scale int, only map[string]bool) {
 						pairs = append(pairs, [2]int{k % pa, (k*7 + 3) % pb}, [2]int{(k*5 + 1) % pa, k % pb})
 					}
 				}
+				g.fk = [2]int{-1, -1}
+				readsSCC := (d.f == "SOP2" && (d.op == 4 || d.op == 5 || d.op == 10 || d.op == 11)) || (d.f == "SOPK" && d.op == 1) ||
+					(d.f == "SOPP" && (d.op == 4 || d.op == 5))
 				for cnt, p := range pairs {
 					st := "emu"
 					if cnt%5 == 4 {
 						st = "timing"
 					}
-					g.cases = append(g.cases, g.one(arch, st, d, -1, p[0], p[1]))
+					c := g.one(arch, st, d, -1, p[0], p[1])
+					g.cases = append(g.cases, c)
+					if readsSCC {
+						c.SCC = 0
+						c2 := g.one(arch, st, d, -1, p[0], p[1])
+						c2.SCC = 1
+						g.cases = append(g.cases, c2)
+					}
+				}
+				// negative inline constants and literals as sources
+				if d.aw == 32 && (d.f == "SOP2" || d.f == "SOP1" || d.f == "SOPC") {
+					for k := 0; k < 8; k++ {
+						g.fk = [2]int{8, -1}
+						g.cases = append(g.cases, g.one(arch, "emu", d, -1, k, k))
+						if d.bw == 32 {
+							g.fk = [2]int{-1, 8}
+							g.cases = append(g.cases, g.one(arch, "emu", d, -1, k, k))
+						}
+					}
+					g.fk = [2]int{-1, -1}
 				}
 				for k := 0; k < 10*scale; k++ {
 					st := "emu"
@@ -1048,7 +1284,7 @@ func (g *gen) genC06(scale int, only map[string]bool) {
 				if dl, ok := c.Ops["d"]; ok && dl.C >= 256 {
 					for i := 0; i < dl.N; i++ {
 						if _, set := c.V[dl.C-256+i]; !set {
-							g.setV(c, dl.C-256+i, 32, g.laneValues(32, 'i', -1, 0, 1))
+							g.setV(c, dl.C-256+i, 32, g.randLanes(32, 'i'))
 						}
 					}
 				}
